@@ -81,6 +81,7 @@ let gen_residual r bs order res =
     let rem = ref res in
     let take k = let rec go k acc l = if k = 0 then (List.rev acc, l) else (match l with x :: t -> go (k - 1) (x :: acc) t | [] -> (List.rev acc, [])) in
       let (a, b) = go k [] !rem in rem := b; a in
+    try
     let parts = List.init count (fun i ->
         let len = if i = 0 then size - order else size in
         let rs = take len in
@@ -95,10 +96,13 @@ let gen_residual r bs order res =
           let rec need k = if (maxu lsr k) <= 40 then k else need (k + 1) in
           let kmin = need 0 in
           if kmin >= esc then
-            (if maxbits <= 31 then PEsc (n_of_int maxbits, List.map z_of_int rs) else PRice (n_of_int (esc - 1), List.map z_of_int rs))
+            (if maxbits <= 31 then PEsc (n_of_int maxbits, List.map z_of_int rs)
+             else if (maxu lsr (esc - 1)) > 2000 then raise Exit   (* a unary part of millions of bits: valid but useless *)
+             else PRice (n_of_int (esc - 1), List.map z_of_int rs))
           else PRice (n_of_int (range r kmin (min (esc - 1) (kmin + 3))), List.map z_of_int rs)
         end) in
     Some { r_method = n_of_int meth; r_parts = parts }
+    with Exit -> None
 
 (* encode one subframe signal `x` (n samples fitting `bps` bits) with a random admissible choice *)
 let gen_subframe r bs bps x =
@@ -190,3 +194,40 @@ let md5_of_pcm bps (frames : int list list) =
   List.iter (fun fr -> List.iter (fun v -> for i = 0 to nb - 1 do Buffer.add_char b (Char.chr ((v asr (8 * i)) land 255)) done) fr) frames;
   let d = Digest.string (Buffer.contents b) in
   List.init 16 (fun i -> Char.code d.[i])
+
+
+(* one illegal / reserved-code mutation of a valid tree (the writer serialises any tree and recomputes
+   both CRCs, so the result is a checksum-valid malformed frame) *)
+let mutate_frame r (f : frame) : frame * string =
+  let h = f.f_hdr in
+  let set_sub i g = { f with f_subs = List.mapi (fun j sf -> if j = i then g sf else sf) f.f_subs } in
+  let nsub = List.length f.f_subs in
+  let i = below r (max 1 nsub) in
+  let sub = List.nth f.f_subs i in
+  let hdr_mut () =
+    match below r 7 with
+    | 0 -> ({ f with f_hdr = { h with h_bs_code = N0 } }, "bs-code-0")
+    | 1 -> ({ f with f_hdr = { h with h_rate_code = n_of_int 15 } }, "rate-code-15")
+    | 2 -> ({ f with f_hdr = { h with h_bps_code = n_of_int 3 } }, "bps-code-3")
+    | 3 -> ({ f with f_hdr = { h with h_assign = n_of_int (range r 11 15) } }, "assign-reserved")
+    | 4 -> ({ f with f_hdr = { h with h_bs_code = n_of_int 7; h_bs = n_of_int 65536 } }, "bs-65536")
+    | 5 -> ({ f with f_hdr = { h with h_rate_code = n_of_int (pick r [1;2;3;4;5;6;7;8;9;10;11]) } }, "rate-code-changed")
+    | _ -> ({ f with f_hdr = { h with h_bps_code = n_of_int (pick r [1;2;4;5;6;7]) } }, "bps-code-changed") in
+  match sub.sf_body, below r 10 with
+  | BLpc (o, w, p, sh, c, rr), 0 | BLpc (o, w, p, sh, c, rr), 1 ->
+      (set_sub i (fun sf -> { sf with sf_body = BLpc (o, w, p, n_of_int (range r 16 31), c, rr) }), "lpc-negative-shift")
+  | BLpc (o, w, p, sh, c, rr), 2 ->
+      (set_sub i (fun sf -> { sf with sf_body = BLpc (o, w, n_of_int 16, sh, c, rr) }), "lpc-precision-16")
+  | BFixed (o, w, rr), 0 | BFixed (o, w, rr), 1 ->
+      (set_sub i (fun sf -> { sf with sf_body = BFixed (n_of_int (range r 5 7), w, rr) }), "fixed-order-reserved")
+  | BFixed (o, w, rr), 2 | BLpc (o, w, _, _, _, rr), 3 ->
+      let rr' = { rr with r_method = n_of_int (range r 2 3) } in
+      (set_sub i (fun sf -> { sf with sf_body = (match sf.sf_body with
+          | BFixed (o, w, _) -> BFixed (o, w, rr') | BLpc (o, w, p, sh, c, _) -> BLpc (o, w, p, sh, c, rr') | b -> b) }), "coding-method-reserved")
+  | BFixed (o, w, rr), 3 | BLpc (o, w, _, _, _, rr), 4 ->
+      (* double the partition list: labelled order one higher than the layout allows *)
+      let rr' = { rr with r_parts = rr.r_parts @ rr.r_parts } in
+      (set_sub i (fun sf -> { sf with sf_body = (match sf.sf_body with
+          | BFixed (o, w, _) -> BFixed (o, w, rr') | BLpc (o, w, p, sh, c, _) -> BLpc (o, w, p, sh, c, rr') | b -> b) }), "partition-order-wrong")
+  | _, 5 -> (set_sub i (fun sf -> { sf with sf_wasted = n_of_int (int_of_n h.h_bps + below r 3) }), "wasted-bits-excess")
+  | _, _ -> hdr_mut ()
